@@ -17,7 +17,7 @@ FN_PROPS = {}
 
 W = "Tracked(w): Tracked<&mut World>"
 WA = "Tracked(w)"
-BU = "broadcast use group_paths;\nbroadcast use group_fmt;\n"
+BU = "broadcast use group_paths;\nbroadcast use group_fmt;\nbroadcast use lemma_join1;\n"
 
 # literals of the statement (system locations, folder and file names) and their components
 LITS = [
@@ -51,6 +51,7 @@ def lit_lemmas():
             if c != "/":
                 names.add(c)
     for n in sorted(names):
+        ens.append('        "%s"@.len() == %d,' % (n, len(n)))
         body.append('    reveal_strlit("%s"); assert("%s"@ =~= %s);' % (n, n, _chars(n)))
     for lit, comps in LITS:
         cs = ", ".join("root()" if c == "/" else '"%s"@' % c for c in comps)
@@ -95,6 +96,13 @@ def build(u):
 """)
             u.take_fn(s_mh, "get_proxy_agent_version", external_body=True)
 
+    u.raw("""
+#[verifier::external_body]
+pub broadcast proof fn axiom_fmt_shared_error() ensures #[trigger] vstd::std_specs::fmt::fmt_req_all::<proxy_agent_shared::error::Error>() {}
+#[verifier::external_body]
+pub broadcast proof fn axiom_fmt_setup_error() ensures #[trigger] vstd::std_specs::fmt::fmt_req_all::<crate::error::Error>() {}
+pub broadcast group group_fmt { axiom_fmt_pathbuf, axiom_fmt_path, axiom_fmt_ioerr, axiom_fmt_shared_error, axiom_fmt_setup_error }
+""")
     # ---------------- crate proxy_agent_setup ----------------
     with u.mod("error"):
         u.take_ext(er, ["Error"], "vx_ext_setup_error")
@@ -131,16 +139,80 @@ def build(u):
     with u.mod("linux", uses="use crate::{backup, logger, result::Result, running};\nuse proxy_agent_shared::misc_helpers;\nuse std::{fs, path::PathBuf};"):
         for c in ("SERVICE_CONFIG_FILE_NAME", "CONFIG_FILE", "EBPF_FILE", "CONFIG_PATH", "EBPF_PATH"):
             u.take(lx, c, "const")
-        copy_e9 = lambda anchor, a, b, nm, ret="std::io::Result<u64>", body=None: (
-            anchor, None, "a: &PathBuf, b: &PathBuf, " + W, "%s, %s, %s" % (a, b, WA), ret, """
-        requires pbv(*a) != pbv(*b),
-        ensures copy_post(*old(w), *final(w), pbv(*a), pbv(*b), r is Ok),""", dict(name=nm, body=body or "fs::copy(a, b)"))
+        def call_e9(sf, fnpath, callee, nth, params, ret, contract, name, body):
+            """E9 on the nth call of `callee` inside fn: anchor and argument texts are taken from the index (verbatim source)"""
+            from vxlib import Undecided
+            it = sf.item(fnpath, "fn")
+            cs = [c for c in it["calls"] if c.get("callee", "").replace(" ", "") == callee]
+            if len(cs) <= nth:
+                raise Undecided("%s: call #%d of %s not found" % (fnpath, nth, callee))
+            c = cs[nth]
+            args = ", ".join(sf.s(a[0], a[1]) for a in c["args"])
+            return (sf.s(c["span"][0], c["span"][1]), None, params + ", " + W, args + ", " + WA, ret, contract, dict(name=name, body=body))
+        COPY_C = """
+        requires asref_pv(a) != asref_pv(b),
+        ensures copy_post(*old(w), *final(w), asref_pv(a), asref_pv(b), r is Ok),"""
         u.take_fn(lx, "copy_file", ghost=W, ret="", pre_body=BU,
                   ghost_calls=[("misc_helpers::try_create_folder(", None, WA)],
-                  e9=[copy_e9("fs::copy(&src_file, &dst_file)", "&src_file", "&dst_file", "vx_e9_fs_copy_file")],
+                  e9=[call_e9(lx, "copy_file", "fs::copy", 0, "a: &PathBuf, b: &PathBuf", "std::io::Result<u64>", COPY_C, "vx_e9_fs_copy_file", "fs::copy(a, b)")],
                   contract="""
         requires pbv(src_file) != pbv(dst_file),
         ensures
             copy_file_post(*old(w), *final(w), pbv(src_file), pbv(dst_file)),
+""")
+        u.take_fn(lx, "delete_file", ghost=W, ret="", pre_body=BU,
+                  e9=[call_e9(lx, "delete_file", "fs::remove_file", 0, "a: &PathBuf", "std::io::Result<()>", """
+        ensures remove_post(*old(w), *final(w), asref_pv(a), r is Ok),""", "vx_e9_fs_remove_file", "fs::remove_file(a)")],
+                  contract="""
+        ensures
+            delete_file_post(*old(w), *final(w), pbv(file_to_be_delete)),
+""")
+        u.take_fn(lx, "backup_service_config_file", ghost=W, ret="", pre_body=BU + "proof { lemma_lits(); }",
+                  e9=[call_e9(lx, "backup_service_config_file", "fs::copy", 0, "a: PathBuf, b: &PathBuf", "std::io::Result<u64>", COPY_C, "vx_e9_fs_copy_backup_unit", "fs::copy(a, b)")],
+                  contract="""
+        requires pbv(backup_folder).push(n_unit()) != sys_unit(),
+        ensures
+            copy_file_post(*old(w), *final(w), sys_unit(), pbv(backup_folder).push(n_unit())),
+""")
+        UNIT_C = """
+        requires service_name@ == n_exe(), pbv(service_file_dir).push(n_unit()) != sys_unit(),
+        ensures copy_post(*old(w), *final(w), pbv(service_file_dir).push(n_unit()), sys_unit(), r is Ok),
+"""
+        u.take_fn(lx, "copy_service_config_file", ghost=W, pre_body=BU + "proof { lemma_lits(); lemma_names(); }",
+                  e9=[("""format!("{}.service", service_name)""", None, "service_name: &str", "service_name", "String",
+                       """        ensures r@ == service_name@ + ".service"@,""", dict(name="vx_e9_format_unit_name")),
+                      ("fs::copy(src_config_file_path, dst_config_file_path).map_err(Into::into)", None, "a: PathBuf, b: PathBuf, " + W,
+                       "src_config_file_path, dst_config_file_path, " + WA, "Result<u64>", COPY_C,
+                       dict(name="vx_e9_fs_copy_unit", body="fs::copy(a, b).map_err(Into::into)"))],
+                  contract=UNIT_C)
+        u.take_fn(lx, "setup_service", ghost=W, ghost_calls=[("copy_service_config_file(", None, WA)], contract=UNIT_C)
+        u.take_fn(lx, "backup_files", ghost=W, ret="", pre_body=BU + "proof { lemma_lits(); lemma_layout(); }",
+                  ghost_calls=[("copy_file(", 0, WA), ("copy_file(", 1, WA), ("copy_file(", 2, WA), ("backup_service_config_file(", None, WA)],
+                  contract="""
+        requires wf_layout(),
+        ensures
+            old(w).fault ==> final(w).fault,
+            !final(w).fault ==> final(w).fs =~= backup_op(old(w).fs),  // @C17.backup_files.backup_slots_hold_system_files
+            forall|p: PathV| !is_bak_slot(p) ==> #[trigger] at(final(w).fs, p) == at(old(w).fs, p),  // @C17.backup_files.nothing_else_changes
+            neutral_ext(old(w).tr, final(w).tr),  // @C17.backup_files.service_and_system_files_untouched
+""")
+        u.take_fn(lx, "copy_files", ghost=W, ret="", pre_body=BU + "proof { lemma_lits(); lemma_layout(); lemma_src_under(pbv(src_folder)); }",
+                  ghost_calls=[("copy_file(", 0, WA), ("copy_file(", 1, WA), ("copy_file(", 2, WA)],
+                  contract="""
+        requires wf_layout(), is_under(exe_dir(), pbv(src_folder)),
+        ensures
+            old(w).fault ==> final(w).fault,
+            !final(w).fault ==> final(w).fs =~= place3(old(w).fs, pbv(src_folder)),  // @C17.copy_files.places_exactly_the_three_files
+            forall|p: PathV| !is_sys(p) ==> #[trigger] at(final(w).fs, p) == at(old(w).fs, p),  // @C17.copy_files.only_system_locations_change
+            quiet_ext(old(w).tr, final(w).tr),  // @C17.copy_files.no_stop_or_start
+""")
+        u.take_fn(lx, "delete_files", ghost=W, ret="", pre_body=BU + "proof { lemma_lits(); lemma_names(); }",
+                  ghost_calls=[("delete_file(", 0, WA), ("delete_file(", 1, WA), ("delete_file(", 2, WA)],
+                  contract="""
+        ensures
+            old(w).fault ==> final(w).fault,
+            !final(w).fault ==> final(w).fs =~= rm(rm(rm(old(w).fs, sys_exe()), sys_config()), sys_ebpf()),  // @C17.delete_files.removes_the_installed_files
+            forall|p: PathV| !is_sys(p) ==> #[trigger] at(final(w).fs, p) == at(old(w).fs, p),  // @C17.delete_files.only_system_locations_change
+            quiet_ext(old(w).tr, final(w).tr),  // @C17.delete_files.no_stop_or_start
 """)
         u.flush_e9()
